@@ -3,9 +3,10 @@ namespace Yaclib.CoSharedMutex
 
 set_option maxHeartbeats 4000000 in
 theorem inv_step_10 {cfg s l s'} (hi : Inv cfg s) (hs : Step s l s') (hg : grpOf l = 10) : Inv cfg s' := by
-  cases hi
   cases hs with
-  | rwStore c sw h hs => sm_dbg [List.count_le_length, List.length_eq_zero_iff, length_pos_of_ne_nil]
+  | rwStore c sw h hs =>
+      cases hi
+      sm_auto [List.count_le_length]
   | _ => simp [grpOf] at hg
 
 end Yaclib.CoSharedMutex
